@@ -37,7 +37,7 @@ import (
 // Events of source k get offsets k*100000 + 10*(index within source + 1); SourceID = k+1.
 //
 // result: <trace tokens…> <idle|stuck>
-//   put:off:seq get:off:seq scm:off:seq att:S lv:S det:S tmo:S chg:S pop:S   (S = src.stream)
+//   put:off:seq get:off:seq gtm:S (time-out event taken) scm:off:seq att:S lv:S det:S tmo:S chg:S pop:S   (S = src.stream)
 //   out:off:proc prop:off:proc fin:off:flags add:off:B seal:seq:B bcm:seq:B   (B = M | D)
 //   send:B:seq:ok|fail:off,off,…   giveup:B:off,off,…
 
@@ -98,6 +98,8 @@ func (t *c01Trace) sink(kind string, a, b uint64) {
 		t.toks = append(t.toks, fmt.Sprintf("put:%d:%d", a, b))
 	case "s.get":
 		t.toks = append(t.toks, fmt.Sprintf("get:%d:%d", a, b))
+	case "s.gettmo":
+		t.toks = append(t.toks, "gtm:"+stream())
 	case "s.commit":
 		t.toks = append(t.toks, fmt.Sprintf("scm:%d:%d", a, b))
 	case "s.attach":
